@@ -24,7 +24,10 @@ import time
 ROOT = os.path.dirname(os.path.dirname(os.path.abspath(__file__)))
 REPO = os.environ.get("VERIF_REPO", "/repo")
 INC = os.path.join(REPO, "Include")
-COQ = os.path.join(ROOT, "coq")
+# side runs against scratch worktrees (seeded changes, harmless refactors) get a PRIVATE copy of the Coq tree: the generated
+# tables under coq/gen/ depend on the headers of the tree under test and must not leak between concurrent runs
+COQ = os.environ.get("VERIF_COQ_DIR") or os.path.join(ROOT, "coq")
+SIDE = hashlib.sha256((REPO + "|" + COQ).encode()).hexdigest()[:8] if (REPO != "/repo" or os.environ.get("VERIF_COQ_DIR")) else ""
 BUILD = os.path.join(ROOT, "build")
 EVID = os.environ.get("VERIF_EVIDENCE_DIR") or os.path.join(ROOT, "evidence")    # override: side runs (other seeds, scratch worktrees) that must not replace the committed evidence
 REPLAYS = os.path.join(os.environ["VERIF_EVIDENCE_DIR"], "replays") if os.environ.get("VERIF_EVIDENCE_DIR") else os.path.join(ROOT, "replays")
@@ -115,7 +118,7 @@ def gen_tables(name="Tables", srcname="gentables.cpp"):
     """Rebuild a table generator against the current headers and refresh
     coq/gen/<name>.v.  Returns (ok, changed, message)."""
     ensure_dirs()
-    with Lock("coq"):
+    with Lock("coq" + SIDE):
         exe = os.path.join(BUILD, "gen_" + name + ("" if REPO == "/repo" else "_" + hashlib.sha256(REPO.encode()).hexdigest()[:8]))
         src = os.path.join(ROOT, "tools", srcname)
         key = tree_hash([INC, src])
@@ -154,7 +157,7 @@ def coq_makefile():
 
 def coq_make(targets, timeout=1500, clean=False):
     """make the given .vo targets (full .vo build, never -vos). Returns (ok, log)."""
-    with Lock("coq"):
+    with Lock("coq" + SIDE):
         coq_makefile()
         if clean:
             run(["make", "clean"], cwd=COQ, timeout=300)
@@ -226,7 +229,7 @@ def coq_audit(prop_v=None):
 def coq_assumptions(prop_v):
     """Re-run coqc on a Properties_Cnn.v (it holds only `exact lemma` proofs) and
     return [(theorem, assumptions-text)]."""
-    with Lock("coq"):
+    with Lock("coq" + SIDE):
         rc, out, err = run(["bash", "-c", "ulimit -v 12000000; exec coqc -Q . Qv " + prop_v], cwd=COQ, timeout=900)
     if rc != 0:
         return None, out + err
@@ -258,8 +261,8 @@ def build_ocaml(comp):
     """(Re)build the extracted model driver of a component when
     coq/model_<comp>.ml (written by Extract_<comp>.v) or its glue changed."""
     ensure_dirs()
-    with Lock("ocaml_" + comp):
-        od = os.path.join(BUILD, "ocaml_" + comp)
+    with Lock("ocaml_" + comp + SIDE):
+        od = os.path.join(BUILD, "ocaml_" + comp + (("_" + SIDE) if SIDE else ""))
         os.makedirs(od, exist_ok=True)
         exe = os.path.join(od, "mdriver")
         srcs = [os.path.join(COQ, "model_%s.mli" % comp), os.path.join(COQ, "model_%s.ml" % comp),
